@@ -1,6 +1,10 @@
 package yqlib
 
-import yaml "gopkg.in/yaml.v3"
+import (
+	"strings"
+
+	yaml "gopkg.in/yaml.v3"
+)
 
 // C02 — assignment obeys the update laws (put-get, get-put, put-put, frame).
 //
@@ -523,4 +527,65 @@ func VerifC02UpdateCreatesPerNode() {
 		verifAssert(o != nil && o.Len() == 1 && o.Front().Value.(*CandidateNode).Value == "9", "C02/update-frame "+label)
 	}
 	verifCover("C02/update-creates/end")
+}
+
+// VerifC02CreateBelowOverwritten: a container overwritten by a scalar or null is gone: a path created below the same
+// place later in the SAME expression starts from nothing - `.a = null | .a.K = V` leaves `a: {K: V}`, `.c = null |
+// .c[I] = V` a sequence padded with nulls - whatever the container held before (frame and creation clauses).
+func VerifC02CreateBelowOverwritten() {
+	v := verifStrN("v", 1, vDigits())
+	k := verifStrN("k", 1, "ad")
+	over := []string{"null", "5", "\"s\"", "true"}[verifChoice("overwrittenWith", 4)]
+	form := verifChoice("form", 4)
+	doc := c02Doc("b", "0", "1", "2", "3") // {a: {b: 0}, c: [1, 2], s: 3}
+	var text, read, want string
+	switch form {
+	case 0:
+		text, read = ".a = OVER | .a.KEY1 = 7770001", ".a"
+		want = "{<!!str " + k + ">: <!!int " + v + ">}"
+	case 1:
+		i := verifChoice("i", 3)
+		text, read = ".c = OVER | .c["+verifItoa(int64(i))+"] = 7770001", ".c"
+		want = "["
+		for j := 0; j < i; j++ {
+			want += "<!!null null>, "
+		}
+		want += "<!!int " + v + ">]"
+	case 2:
+		text, read = ".a |= OVER | .a.KEY1 = 7770001", ".a"
+		want = "{<!!str " + k + ">: <!!int " + v + ">}"
+	default:
+		text, read = ".c = OVER | .c.KEY1 = 7770001", ".c"
+		want = "{<!!str " + k + ">: <!!int " + v + ">}"
+	}
+	if over != "null" {
+		// below a scalar that is not null nothing can be created: an error, and the scalar stays
+		text = strings.Replace(text, "OVER", over, 1)
+		e := vParse(text)
+		vSubst(e, "KEY1", "", k)
+		vSubst(e, "7770001", "!!int", v)
+		_, err := vEval(e, doc)
+		if err != nil {
+			verifCover("C02/create-below/refused")
+			return
+		}
+		got, ok := c02ReadDump(vParse(read), doc)
+		verifObserve("got", got)
+		verifAssert(ok && (verifConcreteBool(verifEqStr(got, want)) || !strings.Contains(got, "<!!int 1>") && !strings.Contains(got, "<!!str b>")), "C02/overwritten-container-kept-its-children overwrittenWith="+over)
+		verifCover("C02/create-below/end")
+		return
+	}
+	text = strings.Replace(text, "OVER", over, 1)
+	e := vParse(text)
+	vSubst(e, "KEY1", "", k)
+	vSubst(e, "7770001", "!!int", v)
+	_, err := vEval(e, doc)
+	verifAssert(err == nil, "C02/create-below-overwritten-error form="+verifItoa(int64(form)))
+	if err != nil {
+		return
+	}
+	got, ok := c02ReadDump(vParse(read), doc)
+	verifObserve("got", got)
+	verifAssert(ok && verifEqStr(got, want), "C02/overwritten-container-kept-its-children form="+verifItoa(int64(form)))
+	verifCover("C02/create-below/end")
 }
